@@ -14,7 +14,7 @@ import (
 
 // C11 — the terminal is restored on every way out of Readline.
 
-const c11Rule = "buffer shapes (empty, short, wrapped over 2-4 rows on narrow terminals, multi-line through AcceptMultiline, cursor at the end / start / middle, completion menu open, incremental search open, hint shown) x editing mode (emacs, vi insert, vi command, visual) x exit path (accept-line, accept-and-hold, operate-and-get-next, multi-line accept, Ctrl-C on a plain line, Ctrl-C on an open menu which must NOT exit then accept, end-of-file on an empty line, insert-comment, edit-command-line which fails for lack of an editor then accept, a harness-registered command that panics, an injected read error) x prompts (plain, coloured, two-line) x terminal sizes; oracle: tcgetattr on the pty right before the call == right after it returned (or after the panic reached the application's recover): all flags, control characters and speeds; on the emulated screen after the return the cursor is in column 0 of a blank row below the last row holding the input (at most one blank row in between, which the library leaves after a line that exactly fills a row) and the last cursor-style sequence seen is the default one (CSI 0 SP q); non-trivial = any exit other than plain accept-line on a one-row buffer; distinct = hash of the case"
+const c11Rule = "buffer shapes (empty, short, wrapped over 2-4 rows on narrow terminals, multi-line through AcceptMultiline, cursor at the end / start / middle, completion menu open, incremental search open, hint shown) x editing mode (emacs, vi insert, vi command, visual) x exit path (accept-line, accept-and-hold, operate-and-get-next, multi-line accept, Ctrl-C on a plain line, Ctrl-C on an open menu which must NOT exit then accept, end-of-file on an empty line, insert-comment, edit-command-line which fails for lack of an editor then accept, a harness-registered command that panics, an injected read error) x prompts (plain, coloured, two-line, with and without a right-side prompt) x terminal sizes; oracle: tcgetattr on the pty right before the call == right after it returned (or after the panic reached the application's recover): all flags, control characters and speeds; on the emulated screen after the return the cursor is in column 0 of a blank row below the last row holding the input (at most one blank row in between, which the library leaves after a line that exactly fills a row) and the last cursor-style sequence seen is the default one (CSI 0 SP q); non-trivial = any exit other than plain accept-line on a one-row buffer; distinct = hash of the case"
 
 type C11Case struct {
 	Mode   string      `json:"mode"` // emacs | vi-insert | vi-command | visual
@@ -27,6 +27,7 @@ type C11Case struct {
 	Rows   int         `json:"rows"`
 	Start  int         `json:"startrow"`
 	Vars   [][2]string `json:"vars,omitempty"`
+	Right  string      `json:"right,omitempty"` // right-side prompt
 }
 
 var c11Exits = []string{"accept-line", "accept-line", "accept-and-hold", "operate-and-get-next", "interrupt", "interrupt-menu", "eof-empty", "insert-comment", "edit-fail", "panic", "read-error"}
@@ -63,6 +64,7 @@ func genC11(t *rapid.T) *C11Case {
 		}
 	}
 
+	c.Right = rapid.SampledFrom([]string{"", "", "", "[right]", "\x1b[34mR!\x1b[0m"}).Draw(t, "right")
 	c.Move = rapid.SampledFrom([]string{"", "", "start", "middle"}).Draw(t, "move")
 	c.Open = rapid.SampledFrom([]string{"", "", "", "menu", "isearch"}).Draw(t, "open")
 	c.Exit = rapid.SampledFrom(c11Exits).Draw(t, "exit")
@@ -130,7 +132,7 @@ func runC11(h *Harness, child *rig.Child, c *C11Case) (*Failure, bool) {
 
 	vars := append([][2]string{}, c.Vars...)
 	comp := &proto.CompSpec{Cands: []proto.Cand{{Value: "foo"}, {Value: "foobar"}, {Value: "food", Desc: "eat"}, {Value: "bar"}}, Mode: "word"}
-	spec := &proto.Spec{Calls: 1, Inputrc: renderVars(mode, vars), Multiline: "backslash", Prompt: &proto.PromptSpec{Primary: c.Prompt, Transient: "T> "}, Completer: comp,
+	spec := &proto.Spec{Calls: 1, Inputrc: renderVars(mode, vars), Multiline: "backslash", Prompt: &proto.PromptSpec{Primary: c.Prompt, Transient: "T> ", Right: c.Right}, Completer: comp,
 		Probes: []proto.ProbeSpec{{Name: "verif-panic", Kind: "panic"}},
 		Binds: append(e.bindNames([]string{"accept-line", "accept-and-hold", "operate-and-get-next", "insert-comment", "edit-command-line", "end-of-file", "beginning-of-line", "backward-char", "complete", "menu-complete", "reverse-search-history", "abort"}, mainKeymaps...),
 			proto.BindSpec{Keymap: "emacs", Seq: "\x0f", Action: "verif-panic"}, proto.BindSpec{Keymap: "vi-insert", Seq: "\x0f", Action: "verif-panic"}, proto.BindSpec{Keymap: "vi-command", Seq: "\x0f", Action: "verif-panic"},
@@ -287,7 +289,7 @@ func runC11(h *Harness, child *rig.Child, c *C11Case) (*Failure, bool) {
 		fmt.Printf("TRACE final stop %s cursor=(%d,%d) style=%q\n%s\n", st, st.X.Row, st.X.Col, st.X.LastStyle, strings.Join(st.X.Dump(), "\n"))
 	}
 
-	ctx := fmt.Sprintf("exit %s in %s with buffer %q (cursor %d, helper %q) on a %dx%d terminal, prompt %q", c.Exit, c.Mode, buffer, atExit.Pos, atExit.Local, c.Cols, c.Rows, c.Prompt)
+	ctx := fmt.Sprintf("exit %s in %s with buffer %q (cursor %d, helper %q) on a %dx%d terminal, prompt %q, right prompt %q", c.Exit, c.Mode, buffer, atExit.Pos, atExit.Local, c.Cols, c.Rows, c.Prompt, c.Right)
 
 	// (1) terminal modes
 	if len(d.s.CallStarts) == 0 {
@@ -354,7 +356,16 @@ func runC11(h *Harness, child *rig.Child, c *C11Case) (*Failure, bool) {
 		}
 
 		for r := lastText + 1; anchored && r < scr.Row; r++ {
-			if txt := strings.TrimSpace(scr.RowText(r)); txt == "^C" || txt == "C" {
+			// the ^C echoed on an interrupt may have a row of its own, and the
+			// right-side prompt of a line that exactly fills its last row (or of an
+			// empty line) is painted on the row after the text: part of the prompt,
+			// not a remnant
+			txt := strings.TrimSpace(scr.RowText(r))
+			if c.Right != "" {
+				txt = strings.TrimSpace(strings.TrimSuffix(txt, stripSGR(c.Right)))
+			}
+
+			if txt == "^C" || txt == "C" || txt == "" {
 				continue
 			}
 
